@@ -8,7 +8,7 @@ from ..runner import jval
 from ..valgen import Gen, copy_value, share_equal
 from ..condgen import CondGen
 from ..pathgen import PathGen
-from ..specgen import SpecGen, normalise_cond
+from ..specgen import SpecGen, normalise_cond, normalise_path
 from ..describe import describe_cond, Inert0
 from ..ruleterms import enc_arg1, Tags
 from ..terms import valida, Leaf, Bin
@@ -17,9 +17,10 @@ from ..pathterms import PathT
 PROP = "C09"
 IMPORTS = ("Py Lang Defs Cond Dsl Check DocSem PathSpec Path Cast Str SpecDefs RuleDefs RuleSpec Rule Spec SpecIO Descr "
            "Inst Run RunRule RunSpec")
-THEOREMS = ['C09_leaf', 'C09_tree', 'C09_any_case', 'C09_alias_dtype', 'C09_alias_length', 'C09_alias_in_', 'C09_type_name', 'C09_positional_or_keyword']
+THEOREMS = ['C09_leaf', 'C09_tree', 'C09_any_case', 'C09_alias_dtype', 'C09_alias_length', 'C09_alias_in_', 'C09_type_name', 'C09_positional_or_keyword',
+            'C09_nested_leaf', 'C09_nested_tree', 'C09_nested_mixed_tree']
 FACT_LEMMAS = ['C09Proof table facts (about 150 closed computations on the generated tables)', 'Tie.tie_build']
-DEPENDS = ['Py.v', 'Lang.v', 'Defs.v', 'Cond.v', 'Dsl.v', 'Check.v', 'DocSem.v', 'Inst.v', 'Gen/TablesGen.v', 'Gen/CallablesGen.v', 'Gen/SpecGen.v', 'Path.v', 'Cast.v', 'Str.v', 'SpecDefs.v', 'RuleDefs.v', 'Rule.v', 'Spec.v', 'SpecIO.v', 'Descr.v', 'Eq.v', 'RunSpec.v', 'SpecSpell.v', 'Proofs/Tie.v', 'Proofs/PyFacts.v', 'Proofs/C01Proof.v', 'Proofs/C02Proof.v', 'Proofs/RuleProof.v', 'Proofs/C03Proof.v', 'Proofs/C04Proof.v', 'RuleSpec.v', 'RuleTerms.v', 'PathSpec.v', 'RunRule.v', 'Run.v', 'Proofs/C09Proof.v', 'Properties/C09.v']
+DEPENDS = ['Py.v', 'Lang.v', 'Defs.v', 'Cond.v', 'Dsl.v', 'Check.v', 'DocSem.v', 'Inst.v', 'Gen/TablesGen.v', 'Gen/CallablesGen.v', 'Gen/SpecGen.v', 'Path.v', 'Cast.v', 'Str.v', 'SpecDefs.v', 'RuleDefs.v', 'Rule.v', 'Spec.v', 'SpecIO.v', 'Descr.v', 'Eq.v', 'RunSpec.v', 'SpecSpell.v', 'Proofs/Tie.v', 'Proofs/PyFacts.v', 'Proofs/C01Proof.v', 'Proofs/C02Proof.v', 'Proofs/RuleProof.v', 'Proofs/C03Proof.v', 'Proofs/C04Proof.v', 'RuleSpec.v', 'RuleTerms.v', 'PathSpec.v', 'RunRule.v', 'Run.v', 'Proofs/C09Proof.v', 'Properties/C09.v', 'NestedArgs.v', 'NestedIO.v', 'NestedSpell.v', 'Proofs/C11NestedProof.v', 'Proofs/C11NestedFullProof.v', 'Proofs/C13NestedProof.v', 'Proofs/C09NestedProof.v']
 ASSUMPTIONS = ["Layer P models CPython's operators (pysem)", "str.lower() / split are modelled for ASCII"]
 
 
@@ -93,6 +94,60 @@ def make_case(g, t, spec):
             direct = None
     nontrivial = outcome[0] == "ok" and t.size() >= 1
     return Case(descr, model, oracle, impl, outcome, nontrivial, key=repr(spec)[:200]), direct
+
+
+NESTED_IMPORTS = ("Py Lang Defs Cond Dsl Check DocSem PathSpec Path Cast RuleDefs RuleSpec Rule Inst Run RunRule RuleTerms NestedArgs "
+                  "SpecDefs Spec SpecIO Eq NestedIO NestedSpell")
+
+
+def nested_cases(g, pg, sg, n):
+    """Correspondence for nested arguments (NestedSpell.v / NestedIO.v): a one-parameter callable whose argument is a list with
+    data paths among its items or a mapping with data paths among its values; the spec (random spelling) parses to a condition that
+    is == to the DSL-built one, in the model and in the code."""
+    from .c17 import enc_narg
+    from .c10 import limit_parts
+    v = valida()
+    out = []
+    lits = [1, "s", None, 2.5, True, {"path": 1}, {"a": [1]}, [1, "x"], {"path": ["a"], "b": 2}, []]
+    for _ in range(n):
+        doc = g.document(3, 4)
+
+        def item():
+            if g.r.random() < 0.5:
+                return normalise_path(limit_parts(pg.path(doc, max_len=2, mods_p=0.4)))
+            return copy.deepcopy(g.r.choice(lits))
+
+        def leaf():
+            if g.r.random() < 0.65:
+                arg = [item() for _ in range(g.r.randint(1, 4))]
+            else:
+                arg = {kk: item() for kk in g.r.sample(["k", "j", "a", "n"], g.r.randint(1, 3))}
+            m = g.r.choice(["in_", "not_in", "equal_to", "not_equal_to"]) if isinstance(arg, list) else g.r.choice(["equal_to", "not_equal_to"])
+            return Leaf(g.r.choice(["Value", "Value", "Key", "Index"]), m, [arg])
+        t = leaf()
+        if g.r.random() < 0.35:
+            b = leaf() if g.r.random() < 0.6 else Leaf("Value", "in_range", [], {"lower": item() if g.r.random() < 0.5 else 1, "upper": 5})
+            t = Bin(g.r.choice(["and", "or", "xor"]), t, b)
+            if {l.cls for l in t.leaves()} >= {"Key", "Index"}:
+                for l in t.leaves():
+                    l.cls = "Value"
+        spec = sg.cond_spec(t)
+        if spec is None:
+            continue
+        try:
+            dsl = t.build()
+        except Exception:
+            continue
+        o = E.run_outcome(lambda: bool(v.conditions.ConditionLike.from_spec(copy.deepcopy(spec)) == dsl))
+        try:
+            model = f"(run_c09n {E.enc_val(spec)} {t.coq(enc_narg(Tags()))})"
+            if len(model) > 8000:
+                continue
+            out.append(Case({"kind": "nested", "term": t.descr()[:400], "spec": jval(spec), "impl": o[0] + ":" + repr(o[1])[:100], "coq": model[:8000], "flags": []},
+                            model, None, E.enc_res(o), o, o == ("ok", True), key=("nested", repr(spec)[:300])))
+        except (E.Unencodable, Exception):
+            continue
+    return out
 
 
 def run(tier, seed, model_ok, spec_ok, replay=None):
@@ -189,6 +244,17 @@ def run(tier, seed, model_ok, spec_ok, replay=None):
             direct.append(d)
     k_bad, o_bad, nk, no, err = run_passes("c09", IMPORTS, cases, model_ok, spec_ok)
     dist = Counter("outcome:" + (c.outcome[1] if c.outcome[0] == "exc" else "ok") for c in cases)
+    sgn = SpecGen(g)          # (lists stay lists here: nested path items inside a tuple are rejected by from_spec)
+    ncases = nested_cases(g, pg, sgn, 200 if tier == "quick" else 5000)
+    nk_bad, _, nnk, _, nerr = run_passes("c09n", NESTED_IMPORTS, ncases, model_ok, False)
+    for c in ncases:
+        dist["nested:" + (("equal" if c.outcome[1] else "NOT-equal") if c.outcome[0] == "ok" else c.outcome[1])] += 1
+        if c.outcome == ("ok", False):
+            direct.append(dict(c.descr, kind="direct", what="from_spec(spec) is not equal to the DSL-built condition (nested path arguments)"))
+    k_bad = k_bad + [len(cases) + i for i in nk_bad]
+    cases = cases + ncases
+    nk += nnk
+    err = err or nerr
     res = {"evaluations": len(cases), "k_cases": nk, "o_cases": no + len(cases),
            "nontrivial": len({c.key for c in cases if c.nontrivial}),
            "rule": "DSL terms (all 7 classes x all constructors, nested and/or/xor, 12% with a data-path argument) written as "
